@@ -83,6 +83,12 @@ Theorem C13_commits_kept : forall s b o v,
             /\ suffixb (resolve (rewrites_of s b o) (S (length (rewrites_of s b o))) h) f = true.
 Proof. exact merge_views_heads_kept. Qed.
 
+(** A resolved bookmark follows whatever the reconciliation did to its commit (rewritten:
+    the successor; abandoned: the parent; a rebased descendant: its rebased copy). *)
+Theorem C13_bookmark_follows : forall (res : commit -> commit) c,
+  update_bookmark res [Some c] = [Some (res c)].
+Proof. exact update_bookmark_normal. Qed.
+
 (** ** Order of reconciliation. *)
 Theorem C13_order_wc : forall s b o : option commit,
   merge_wc1 s b o = merge_wc1 o b s
